@@ -71,6 +71,10 @@ def check(ctx):
     r = ctx.tlc("Alloc", "AllocMCthorough.cfg" if ctx.thorough else "AllocMC.cfg", workers=16, timeout=2400, xmx="16g")
     if not r.ok:
         ctx.model_violation(r, "heap invariants")
+    if ctx.thorough:   # beyond the exhaustive bound: random behaviours with 6 live blocks, 5 request sizes, larger arena
+        r = ctx.tlc("Alloc", "AllocSim.cfg", workers=16, simulate=20000, depth=80, coverage=False, timeout=1500)
+        if not r.ok:
+            ctx.model_violation(r, "Alloc invariants (simulation)")
     r, g = ctx.tlc_graph("Alloc", "AllocGraph.cfg", workers=8)
     if not r.ok:
         ctx.model_violation(r, "heap graph")
